@@ -1,16 +1,26 @@
 import Model.Ring
 import Proofs.C16Ring
 import Proofs.C16Refresh
-/-! helper lemmas: consistency invariant of the by-id / by-address indexes -/
+/-! helper lemmas: consistency invariants of the by-id / by-address indexes (repaired `removeHost`) -/
 namespace C16
 open Ring
 
-/-- consistency of the by-id and by-address indexes -/
+/-- FULL consistency of the by-id and by-address indexes: every host is stored under its own id, is
+indexed by its address, and no two hosts share an address -/
 structure RInv (r : Ring.Ring) : Prop where
   wf : WF r.byId
   knodup : (keys r.byId).Nodup
   ip : ∀ e ∈ r.byId, lookup r.byIp e.2.addr = some e.1
   uniq : ∀ e1 ∈ r.byId, ∀ e2 ∈ r.byId, e1.2.addr = e2.2.addr → e1.1 = e2.1
+
+/-- WEAK consistency (holds also while two hosts share an address): every address of a host of the
+ring is indexed to a host of the ring with that address -/
+def Cov (r : Ring.Ring) : Prop :=
+  ∀ e ∈ r.byId, ∃ e' ∈ r.byId, e'.2.addr = e.2.addr ∧ lookup r.byIp e.2.addr = some e'.1
+
+/-- no stale by-address entry: every entry maps an address to a host of the ring with that address -/
+def NoStale (r : Ring.Ring) : Prop :=
+  ∀ a id, lookup r.byIp a = some id → ∃ h, (id, h) ∈ r.byId ∧ h.addr = a
 
 /-- no host of the ring with another id has the address of `h` -/
 def AddrFree (r : Ring.Ring) (h : RHost) : Prop := ∀ e ∈ r.byId, e.2.addr = h.addr → e.1 = h.id
@@ -19,64 +29,151 @@ instance (r : Ring.Ring) (h : RHost) : Decidable (AddrFree r h) := by unfold Add
 
 theorem RInv_empty : RInv Ring.empty := ⟨by simp [WF, Ring.empty], by simp [keys, Ring.empty], by simp [Ring.empty], by simp [Ring.empty]⟩
 
+theorem RInv_cov (r : Ring.Ring) (hr : RInv r) : Cov r := fun e he => ⟨e, he, rfl, hr.ip e he⟩
+
+/-! ### `Cov` under the two mutating operations -/
+
+theorem Cov_addIfMissing (r : Ring.Ring) (hc : Cov r) (h : RHost) : Cov (r.addIfMissing h).1 := by
+  cases hl : lookup r.byId h.id with
+  | some e => rw [addIfMissing_of_some r h e hl]; exact hc
+  | none =>
+    intro e he
+    rw [byIp_add_new r h hl]
+    rw [mem_add_new r h hl] at he
+    have hnew : (h.id, h) ∈ (r.addIfMissing h).1.byId := (mem_add_new r h hl _).mpr (Or.inl rfl)
+    by_cases ha : e.2.addr = h.addr
+    · exact ⟨(h.id, h), hnew, ha.symm, by rw [ha]; exact lookup_put_self _ _ _⟩
+    · rcases he with rfl | he
+      · exact absurd rfl ha
+      · obtain ⟨e', he', h1, h2⟩ := hc e he
+        exact ⟨e', (mem_add_new r h hl _).mpr (Or.inr he'), h1, by rw [lookup_put_ne _ _ _ _ ha]; exact h2⟩
+
+/-- removing host id `k` keeps `Cov` whenever no OTHER host's address is indexed to `k` -/
+theorem Cov_remove (r : Ring.Ring) (hc : Cov r) (k : Nat)
+    (hK : ∀ e ∈ r.byId, e.1 ≠ k → lookup r.byIp e.2.addr ≠ some k) : Cov (r.remove k).1 := by
+  intro e he
+  rw [mem_remove] at he
+  obtain ⟨e', he', h1, h2⟩ := hc e he.1
+  have hne := hK e he.1 he.2
+  have hk' : e'.1 ≠ k := fun hk => hne (hk ▸ h2)
+  exact ⟨e', (mem_remove r k e').mpr ⟨he', hk'⟩, h1, by rw [byIp_remove_keep r k _ hne]; exact h2⟩
+
+/-! ### `NoStale` holds after EVERY operation -/
+
+theorem NoStale_addIfMissing (r : Ring.Ring) (hs : NoStale r) (h : RHost) : NoStale (r.addIfMissing h).1 := by
+  cases hl : lookup r.byId h.id with
+  | some e => rw [addIfMissing_of_some r h e hl]; exact hs
+  | none =>
+    intro a id hlk
+    rw [byIp_add_new r h hl] at hlk
+    by_cases ha : a = h.addr
+    · subst ha
+      rw [lookup_put_self] at hlk
+      cases hlk
+      exact ⟨h, (mem_add_new r h hl _).mpr (Or.inl rfl), rfl⟩
+    · rw [lookup_put_ne _ _ _ _ ha] at hlk
+      obtain ⟨h', hm, hh⟩ := hs a id hlk
+      exact ⟨h', (mem_add_new r h hl _).mpr (Or.inr hm), hh⟩
+
+theorem NoStale_remove (r : Ring.Ring) (hn : (keys r.byId).Nodup) (hs : NoStale r) (k : Nat) : NoStale (r.remove k).1 := by
+  intro a id hlk
+  have hold := byIp_remove_sub r k a id hlk
+  obtain ⟨h', hm, hh⟩ := hs a id hold
+  refine ⟨h', (mem_remove r k _).mpr ⟨hm, ?_⟩, hh⟩
+  intro hk
+  dsimp only at hk
+  subst hk
+  have hl : lookup r.byId id = some h' := lookup_of_mem_nodup _ hn (id, h') hm
+  subst hh
+  exact byIp_remove_self r id h' hl hlk
+
+/-! ### full consistency under the two mutating operations -/
+
 theorem RInv_addIfMissing (r : Ring.Ring) (hr : RInv r) (h : RHost) (hfree : AddrFree r h) : RInv (r.addIfMissing h).1 := by
-  unfold Ring.addIfMissing
-  split
-  · exact hr
-  · rename_i hn
-    rw [lookup_eq_none] at hn
-    dsimp only
-    have hwf : WF (put r.byId h.id h) := by
-      intro e he
-      simp only [put, List.mem_cons] at he
-      rcases he with rfl | he
-      · rfl
-      · exact WF_erase _ _ hr.wf e he
-    have old : ∀ e, e ∈ erase r.byId h.id → e ∈ r.byId ∧ e.1 ≠ h.id := fun e he => (mem_erase _ _ e).mp he
-    refine ⟨hwf, keys_put_nodup _ _ _ hr.knodup, ?_, ?_⟩
+  cases hl : lookup r.byId h.id with
+  | some e => rw [addIfMissing_of_some r h e hl]; exact hr
+  | none =>
+    have hkn : (keys (r.addIfMissing h).1.byId).Nodup := by
+      rw [addIfMissing_of_none r h hl]; exact keys_put_nodup _ _ _ hr.knodup
+    have hnk : ∀ e ∈ r.byId, e.1 ≠ h.id := by
+      intro e he hk
+      rw [lookup_eq_none] at hl
+      exact hl (hk ▸ List.mem_map.mpr ⟨e, he, rfl⟩)
+    refine ⟨WF_addIfMissing r h hr.wf, hkn, ?_, ?_⟩
     · intro e he
-      simp only [put, List.mem_cons] at he
-      rcases he with rfl | he
+      rw [byIp_add_new r h hl]
+      rcases (mem_add_new r h hl e).mp he with rfl | he
       · exact lookup_put_self _ _ _
-      · have ⟨h1, h2⟩ := old e he
-        have hne : e.2.addr ≠ h.addr := fun heq => h2 (hfree e h1 heq)
+      · have hne : e.2.addr ≠ h.addr := fun heq => hnk e he (hfree e he heq)
         rw [lookup_put_ne _ _ _ _ hne]
-        exact hr.ip e h1
+        exact hr.ip e he
     · intro e1 he1 e2 he2 heq
-      simp only [put, List.mem_cons] at he1 he2
-      rcases he1 with rfl | he1 <;> rcases he2 with rfl | he2
+      rcases (mem_add_new r h hl e1).mp he1 with rfl | he1 <;> rcases (mem_add_new r h hl e2).mp he2 with rfl | he2
       · rfl
-      · exact (hfree e2 (old e2 he2).1 heq.symm).symm
-      · exact hfree e1 (old e1 he1).1 heq
-      · exact hr.uniq e1 (old e1 he1).1 e2 (old e2 he2).1 heq
+      · exact (hfree e2 he2 heq.symm).symm
+      · exact hfree e1 he1 heq
+      · exact hr.uniq e1 he1 e2 he2 heq
 
 theorem RInv_remove (r : Ring.Ring) (hr : RInv r) (k : Nat) : RInv (r.remove k).1 := by
-  unfold Ring.remove
-  split
-  · rename_i h0 hl
-    have hmem := lookup_some_mem _ _ _ hl
-    have old : ∀ e, e ∈ erase r.byId k → e ∈ r.byId ∧ e.1 ≠ k := fun e he => (mem_erase _ _ e).mp he
-    refine ⟨WF_erase _ _ hr.wf, keys_erase_nodup _ _ hr.knodup, ?_, ?_⟩
-    · intro e he
-      have ⟨h1, h2⟩ := old e he
-      have hne : e.2.addr ≠ h0.addr := fun heq => h2 (hr.uniq e h1 (k, h0) hmem heq)
-      dsimp only
-      rw [lookup_erase_ne _ _ _ hne]
-      exact hr.ip e h1
-    · intro e1 he1 e2 he2 heq
-      exact hr.uniq e1 (old e1 he1).1 e2 (old e2 he2).1 heq
-  · exact hr
+  refine ⟨WF_remove r k hr.wf, ?_, ?_, ?_⟩
+  · cases hl : lookup r.byId k with
+    | none => rw [remove_of_none r k hl]; exact hr.knodup
+    | some h => rw [remove_of_some r k h hl]; exact keys_erase_nodup _ _ hr.knodup
+  · intro e he
+    rw [mem_remove] at he
+    have : lookup r.byIp e.2.addr ≠ some k := by rw [hr.ip e he.1]; exact fun h => he.2 (Option.some.inj h)
+    rw [byIp_remove_keep r k _ this]
+    exact hr.ip e he.1
+  · intro e1 he1 e2 he2 heq
+    rw [mem_remove] at he1 he2
+    exact hr.uniq e1 he1.1 e2 he2.1 heq
+
+theorem getHost_of_mem (r : Ring.Ring) (hw : WF r.byId) (hn : (keys r.byId).Nodup) (e : Nat × RHost) (he : e ∈ r.byId) :
+    r.getHost e.2.id = some e.2 := by
+  unfold Ring.getHost; rw [hw e he]; exact lookup_of_mem_nodup _ hn e he
 
 theorem RInv_lookup (r : Ring.Ring) (hr : RInv r) (h : RHost) (hh : h ∈ r.allHosts) :
     r.getHost h.id = some h ∧ r.getHostByIP h.addr = (some h, true) := by
   simp only [Ring.allHosts, List.mem_map] at hh
   obtain ⟨e, he, rfl⟩ := hh
-  have hid : e.2.id = e.1 := hr.wf e he
   have h1 : lookup r.byId e.1 = some e.2 := lookup_of_mem_nodup _ hr.knodup e he
-  refine ⟨by unfold Ring.getHost; rw [hid]; exact h1, ?_⟩
+  refine ⟨getHost_of_mem r hr.wf hr.knodup e he, ?_⟩
   unfold Ring.getHostByIP
   rw [hr.ip e he]
   simp only [h1]
+
+/-- what `Cov` gives for the lookups: a host of the ring is found by its id, its address leads to a
+host of the ring WITH THAT ADDRESS — to the host itself when no other host of the ring has its address -/
+theorem Cov_lookup (r : Ring.Ring) (hw : WF r.byId) (hn : (keys r.byId).Nodup) (hc : Cov r) (h : RHost) (hh : h ∈ r.allHosts) :
+    r.getHost h.id = some h ∧
+    (∃ h' ∈ r.allHosts, h'.addr = h.addr ∧ r.getHostByIP h.addr = (some h', true)) ∧
+    ((∀ h' ∈ r.allHosts, h'.addr = h.addr → h' = h) → r.getHostByIP h.addr = (some h, true)) := by
+  simp only [Ring.allHosts, List.mem_map] at hh
+  obtain ⟨e, he, rfl⟩ := hh
+  obtain ⟨e', he', h1, h2⟩ := hc e he
+  have h3 : lookup r.byId e'.1 = some e'.2 := lookup_of_mem_nodup _ hn e' he'
+  have hall : e'.2 ∈ r.allHosts := List.mem_map.mpr ⟨e', he', rfl⟩
+  have hget : r.getHostByIP e.2.addr = (some e'.2, true) := by
+    unfold Ring.getHostByIP; rw [h2]; simp only [h3]
+  refine ⟨getHost_of_mem r hw hn e he, ⟨e'.2, hall, h1, hget⟩, ?_⟩
+  intro hal
+  rw [hget, hal e'.2 hall h1]
+
+/-- `getHostByIP` never answers "known address" with a nil host, and the host it returns has that address -/
+theorem NoStale_lookup (r : Ring.Ring) (hn : (keys r.byId).Nodup) (hs : NoStale r) (a : Nat) (x : Option RHost)
+    (hx : r.getHostByIP a = (x, true)) : ∃ h, x = some h ∧ h ∈ r.allHosts ∧ h.addr = a := by
+  unfold Ring.getHostByIP at hx
+  cases hl : lookup r.byIp a with
+  | none => rw [hl] at hx; simp at hx
+  | some id =>
+    rw [hl] at hx
+    dsimp only at hx
+    obtain ⟨h, hm, ha⟩ := hs a id hl
+    have : lookup r.byId id = some h := lookup_of_mem_nodup _ hn (id, h) hm
+    rw [this] at hx
+    exact ⟨h, (Prod.mk.inj hx).1.symm, List.mem_map.mpr ⟨(id, h), hm, rfl⟩, ha⟩
+
+/-! ### operation histories -/
 
 inductive ROp | addIfMissing (h : RHost) | addOrUpdate (h : RHost) | remove (id : Nat)
 
@@ -84,6 +181,8 @@ def applyOp (r : Ring.Ring) : ROp → Ring.Ring
   | .addIfMissing h => (r.addIfMissing h).1
   | .addOrUpdate h => (r.addOrUpdate h).1
   | .remove id => (r.remove id).1
+
+theorem addOrUpdate_ring (r : Ring.Ring) (h : RHost) : (r.addOrUpdate h).1 = (r.addIfMissing h).1 := rfl
 
 /-- along the history, no host is added while a host with another id has its address -/
 def Guarded : Ring.Ring → List ROp → Prop
@@ -100,5 +199,88 @@ theorem RInv_run (r : Ring.Ring) (hr : RInv r) (ops : List ROp) (hg : Guarded r 
     | addIfMissing h => exact ih _ (RInv_addIfMissing r hr h hg.1) hg.2
     | addOrUpdate h => exact ih _ (RInv_addIfMissing r hr h hg.1) hg.2
     | remove id => exact ih _ (RInv_remove r hr id) hg
+
+/-- the removal of host id `k` is harmless for the by-address index: `k` is unknown, or its host is
+the only host of the ring on its address, or the by-address entry of its address maps to another id -/
+def RemOk (r : Ring.Ring) (k : Nat) : Prop :=
+  match lookup r.byId k with
+  | none => True
+  | some hk => (∀ e ∈ r.byId, e.2.addr = hk.addr → e.1 = k) ∨ lookup r.byIp hk.addr ≠ some k
+
+instance (r : Ring.Ring) (k : Nat) : Decidable (RemOk r k) := by
+  unfold RemOk; split <;> infer_instance
+
+/-- along the history every removal is harmless (`RemOk`); additions are NOT restricted -/
+def RemGuarded : Ring.Ring → List ROp → Prop
+  | _, [] => True
+  | r, .addIfMissing h :: t => RemGuarded (r.addIfMissing h).1 t
+  | r, .addOrUpdate h :: t => RemGuarded (r.addOrUpdate h).1 t
+  | r, .remove id :: t => RemOk r id ∧ RemGuarded (r.remove id).1 t
+
+/-- the invariant of `RemGuarded` histories -/
+structure CInv (r : Ring.Ring) : Prop where
+  wf : WF r.byId
+  knodup : (keys r.byId).Nodup
+  cov : Cov r
+
+theorem knodup_addIfMissing (r : Ring.Ring) (hn : (keys r.byId).Nodup) (h : RHost) : (keys (r.addIfMissing h).1.byId).Nodup := by
+  cases hl : lookup r.byId h.id with
+  | some e => rw [addIfMissing_of_some r h e hl]; exact hn
+  | none => rw [addIfMissing_of_none r h hl]; exact keys_put_nodup _ _ _ hn
+
+theorem knodup_remove (r : Ring.Ring) (hn : (keys r.byId).Nodup) (k : Nat) : (keys (r.remove k).1.byId).Nodup := by
+  cases hl : lookup r.byId k with
+  | none => rw [remove_of_none r k hl]; exact hn
+  | some h => rw [remove_of_some r k h hl]; exact keys_erase_nodup _ _ hn
+
+theorem CInv_remove (r : Ring.Ring) (hr : CInv r) (k : Nat) (hok : RemOk r k) : CInv (r.remove k).1 := by
+  refine ⟨WF_remove r k hr.wf, knodup_remove r hr.knodup k, ?_⟩
+  unfold RemOk at hok
+  cases hl : lookup r.byId k with
+  | none => rw [remove_of_none r k hl]; exact hr.cov
+  | some hk =>
+    rw [hl] at hok
+    dsimp only at hok
+    apply Cov_remove r hr.cov k
+    intro e he hne hidx
+    rcases hok with hal | hni
+    · -- the removed host is alone on its address: the entry of e's address maps to a host with e's address
+      obtain ⟨e', he', h1, h2⟩ := hr.cov e he
+      rw [h2] at hidx
+      have hk' : e'.1 = k := Option.some.inj hidx
+      have := mem_key_unique _ hr.knodup e' (k, hk) he' (lookup_some_mem _ _ _ hl) hk'
+      subst this
+      exact hne (hal e he h1.symm)
+    · obtain ⟨e', he', h1, h2⟩ := hr.cov e he
+      rw [h2] at hidx
+      have hk' : e'.1 = k := Option.some.inj hidx
+      have := mem_key_unique _ hr.knodup e' (k, hk) he' (lookup_some_mem _ _ _ hl) hk'
+      subst this
+      dsimp only at h1 h2
+      rw [← h1] at h2
+      exact hni h2
+
+theorem CInv_run (r : Ring.Ring) (hr : CInv r) (ops : List ROp) (hg : RemGuarded r ops) : CInv (ops.foldl applyOp r) := by
+  induction ops generalizing r with
+  | nil => exact hr
+  | cons o t ih =>
+    cases o with
+    | addIfMissing h => exact ih _ ⟨WF_addIfMissing r h hr.wf, knodup_addIfMissing r hr.knodup h, Cov_addIfMissing r hr.cov h⟩ hg
+    | addOrUpdate h => exact ih _ ⟨WF_addIfMissing r h hr.wf, knodup_addIfMissing r hr.knodup h, Cov_addIfMissing r hr.cov h⟩ hg
+    | remove id => exact ih _ (CInv_remove r hr id hg.1) hg.2
+
+/-- the invariant of ALL histories -/
+structure SInv (r : Ring.Ring) : Prop where
+  wf : WF r.byId
+  knodup : (keys r.byId).Nodup
+  ns : NoStale r
+
+theorem SInv_empty : SInv Ring.empty := ⟨by simp [WF, Ring.empty], by simp [keys, Ring.empty], by simp [NoStale, Ring.empty, lookup]⟩
+
+theorem SInv_addIfMissing (r : Ring.Ring) (hr : SInv r) (h : RHost) : SInv (r.addIfMissing h).1 :=
+  ⟨WF_addIfMissing r h hr.wf, knodup_addIfMissing r hr.knodup h, NoStale_addIfMissing r hr.ns h⟩
+
+theorem SInv_remove (r : Ring.Ring) (hr : SInv r) (k : Nat) : SInv (r.remove k).1 :=
+  ⟨WF_remove r k hr.wf, knodup_remove r hr.knodup k, NoStale_remove r hr.knodup hr.ns k⟩
 
 end C16
